@@ -11,7 +11,7 @@ import traceback
 from . import boot, reader
 from .genrun import WallTimeout, _alarm
 from .model import GenAudit, Template, peq
-from .seams import DrawDiverges, World
+from .seams import DrawDiverges, World, _heavy_mass
 from .simrng import BudgetExceeded, InjectedInterrupt, InjectedRngError, InjectedValueError, Scheduler, SimAbort, SimRng
 
 
@@ -432,7 +432,7 @@ def run_system(text, ops_seed, sched_kwargs, n_generators=1, faults=None, props=
                                   "msg": f"a molecule was yielded although the accumulated mass {t['mass']} had reached the system mass {M_sys}",
                                   "features": []})
                 try:
-                    w = float(member.weight)
+                    w = _heavy_mass(member)  # measured on the molecule, not through the accessor
                 except Exception as exc:
                     w = float("nan")
                 t["mass"] += w
@@ -440,7 +440,7 @@ def run_system(text, ops_seed, sched_kwargs, n_generators=1, faults=None, props=
                 disp.members.append((disp.component, w))
                 if disp.first_dec is not None:
                     disp.pick_vectors.append((disp.first_dec["p"], disp.first_dec["i"], disp.component, w))
-                if not member.fully_generated:
+                if not member.fully_generated or len(member.bond_descriptors) != 0:
                     viols.append({"property": "C13", "invariant": "member_not_fully_generated", "msg": "a yielded molecule has open descriptors", "features": []})
                 if disp.audit is None:
                     viols.append({"property": "C13", "invariant": "member_without_component", "msg": "a yielded molecule was not built from any declared component", "features": []})
@@ -466,7 +466,7 @@ def run_system(text, ops_seed, sched_kwargs, n_generators=1, faults=None, props=
                 sched.faults.clear()
                 try:
                     member = system.generate(rng=rng)
-                    if not member.fully_generated:
+                    if not member.fully_generated or len(member.bond_descriptors) != 0:
                         viols.append({"property": "C13", "invariant": "generate_member_not_fully_generated", "msg": "System.generate returned open descriptors", "features": []})
                     if disp.audit is not None:
                         disp.audit.finish(member, None)
